@@ -104,6 +104,15 @@ def source_dictionary():
             src = cut_tests(strip_comments(open(f, errors="replace").read()))
         except Exception:
             continue
+        # string and byte-string literals of at most 32 bytes are byte strings of the dictionary too (a prefix, a suffix, a separator a
+        # special case is keyed on); simple escapes are decoded, anything else is skipped
+        for m in re.finditer(r'"((?:[^"\\]|\\.)*)"', src):
+            t = m.group(1)
+            if re.search(r'\\[^nrt0\\"\']', t):
+                continue
+            b = t.replace('\\n', '\n').replace('\\r', '\r').replace('\\t', '\t').replace('\\0', '\0').replace('\\"', '"').replace("\\'", "'").replace('\\\\', '\\').encode("utf-8", "replace")
+            if 1 <= len(b) <= 32:
+                blobs.add(b)
         src = re.sub(r'"(?:[^"\\]|\\.)*"', '""', src)
         for m in re.finditer(r"\[((?:\s*(?:0x[0-9a-fA-F_]+|\d[\d_]*)(?:_?u8)?\s*,){1,31}\s*(?:0x[0-9a-fA-F_]+|\d[\d_]*)(?:_?u8)?\s*,?\s*)\]", src):
             try:
